@@ -73,6 +73,10 @@ class ElemEval:
             if a[2] in ('real', 'imag'):
                 return nf.app(a[2], self.atom_at(a[1], ix))
             return nf.index(Poly.atom(a), Tup(ix))
+        if k == 'idx' and a[1][0] == 'app' and a[1][1] in ('broadcast_arrays', 'numpy.broadcast_arrays') and isinstance(a[2], Poly) \
+                and a[2].const_value() is not None:
+            comp = positional(a[1][2])[int(a[2].const_value())]
+            return self.at(comp, self.sub_idx(self.rank(comp), ix))
         if k == 'idx':
             base = a[1]
             bshape = self.shapes.atom(base) if base[0] != 'val' else self.shapes.of(base[1])
@@ -116,6 +120,9 @@ class ElemEval:
             return unary(name, inner) if name in ('exp', 'abs', 'floor', 'ceil') else nf.app(name, inner)
         if name in TRANSPARENT:
             return self.at(pos[0], ix)
+        if name in ('m:reshape', 'reshape') and len(ix) == 2:
+            # column / row vector of a 1-D array (shape inference accepted only these)
+            return self.at(pos[0], (ix[0],)) if shape[1] == Poly.const(1) else self.at(pos[0], (ix[1],))
         if name == 'T':
             return self.at(pos[0], tuple(reversed(ix)))
         if name == 'outer' and len(ix) == 2:
